@@ -204,6 +204,8 @@ func (sms *sqlMetadataStore) AppendObject(ctx context.Context, tx *sql.Tx, bucke
 				return nil, fmt.Errorf("append part prefix mismatch at sequence %d", i)
 			}
 		}
+		// UpdatedAt is left zero: the append changes the content, so the
+		// repository stamps a new Last-Modified.
 		updatedEntity := object.Entity{
 			Id:             oldObjectEntity.Id,
 			BucketName:     bucketName,
